@@ -1,7 +1,7 @@
 """C13 — polar measurements integrate exactly the bins inside the requested limits.
 
 Space: (nr, na) bins in 1..5 x 1..6 (quick 1..4 x 1..4), radial sampling in {0.1, 0.3, 0.7, 1, 2.5}, radial offset in
-{0, 0.5, 1.3}, azimuthal offset in {0, 0.4}, ensembles {2 scan axes, 1 scan axis, ordinal + 2 scan axes}, lazy/eager;
+{0, 0.5, 1.3}, azimuthal offset in {0, 0.4, -pi/8, 2 pi + 0.4}, ensembles {2 scan axes, 1 scan axis, ordinal + 2 scan axes}, lazy/eager;
 inside each: ALL bin-edge-aligned radial limit pairs, ALL aligned azimuthal pairs, all combinations of both, no limits,
 and every partition of the radial / azimuthal range into 2 or 3 contiguous parts.
 Oracle: the limits are generated from integer bin indices, so the reference knows exactly which bins lie inside; the
@@ -22,7 +22,7 @@ META = dict(
 )
 RS = [0.1, 0.3, 0.7, 1.0, 2.5]
 RO = [0.0, 0.5, 1.3]
-AO = [0.0, 0.4]
+AO = [0.0, 0.4, -0.3926990816987241, 6.683185307179586]  # 0, generic, negative (-pi/8), beyond one turn (2 pi + 0.4)
 ENS = ["scan2", "scan1", "ord+scan2"]
 
 
